@@ -563,7 +563,7 @@ def run(ctx):
     rbase = run_stream(ctx, exe, drv, "respawn-fault-free", rbase_cases, {})
     rcases = []
     if rbase:
-        pe, ce = (PARENT_ERRNOS, CHILD_ERRNOS) if thorough else ([4, 12], [9])
+        pe, ce = (PARENT_ERRNOS, CHILD_ERRNOS) if thorough else ([4, 12, 24], [9, 13])
         for c, o in zip(respawn, rbase):
             cfg = Cfg(c)
             if "=" not in o or len(o.split(" ;; ")) != len(cfg.rounds):
@@ -579,7 +579,7 @@ def run(ctx):
                 pos = x.rsplit(":", 1)[0]
                 (rest if pos in seen_pos else first).append(x)
                 seen_pos.add(pos)
-            rcases = first + ctx.rng.shuffle(rest)[:max(0, 1500 - len(first))]
+            rcases = first + ctx.rng.shuffle(rest)[:max(0, 1800 - len(first))]
         routs = run_stream(ctx, exe, drv, "respawn-one-fault", rcases, base_of)
     else:
         routs = []
